@@ -168,6 +168,12 @@ def _ret_triple_via_closure(fn, r):
     if not ch:
         return None
     t = _strip_cast(fn.term(ch[0], inline=False))
+    te = _strip_cast(fn.term(ch[0], inline=True))
+    # the closure may already have been looked through by Fn.term()
+    if te[0] == 'init' and len(te) == 4:
+        return te[1:]
+    if te[0] == 'construct' and len(te[2]) == 3:
+        return tuple(te[2])
     if not (t[0] == 'call' and len(t) == 4 and isinstance(t[3], tuple) and t[3] and t[3][0] == 'local' and len(t[2]) == 1):
         return None
     d = fn.defs.get(t[3][2], {})
@@ -1312,6 +1318,12 @@ def rule_upper_level_sentinel(ctx, which, units=None):
                         d = fn.defs.get(x[2], {})
                         if d.get('init'):
                             todo.append((fn, fn.term(d['init'], inline=False)))
+                            # a closure handed to an algorithm (std::count_if(..., is_coded)): what it returns decides the value
+                            if fn is f and _strip_cast(fn.term(d['init'], inline=False))[0] == 'lambda':
+                                for L in lambda_of_local(fn, x):
+                                    for r_ in L.returns():
+                                        if L.n(r_)['ch']:
+                                            todo.append((L, L.term(L.n(r_)['ch'][0], inline=False)))
                         for w in d.get('writes', []):
                             todo.append((fn, fn.term(w, inline=False)))
                             for (ct_, lab, cn) in _conds(fn, w):
@@ -1693,7 +1705,7 @@ def rule_rebase_agree(ctx, units=None):
                 # business: the segments that start at the sentinel)
                 e0s = _strip_cast(e0)
                 excl = (e0s[0] == 'call' and e0s[1] == 'std::prev' and e0s[2][0][0] == 'call' and e0s[2][0][1].endswith('::end')) or \
-                       (e0s[0] == 'op' and e0s[1] == '+' and _strip_cast(e0s[2]) == _strip_cast(b0) and _strip_cast(e0s[3])[0] in ('local', 'cast'))
+                       (e0s[0] == 'op' and e0s[1] == '+' and _strip_cast(e0s[2]) == _strip_cast(b0))
                 beg = b0[0] == 'call' and b0[1].endswith('::begin')
                 after = sub is not None and g.before(sub, asg[-1]) or (sub is not None and f.block_of(sub) and graph(f).dominates(f.block_of(sub)[0], f.block_of(asg[-1])[0]))
                 # the rebase is in a loop body: the ef assignment must not be reachable before the loop finished
